@@ -1,6 +1,7 @@
 /- model driver for C08: one operation per input line, one canonical line out -/
 import Batchie.Model.DriverLoop
+import Batchie.Model.GibbsIO
 
 open Batchie
 
-def main : IO Unit := DriverLoop.run []
+def main : IO Unit := DriverLoop.run [GibbsIO.handle]
